@@ -872,7 +872,9 @@ func (fx *FnExec) perWrite() bool {
 
 // writeAllowed: the written object is fresh, or the location is listed in the contract's modifies clause.
 func (fx *FnExec) writeAllowed(ref Term, key string) Term {
-	alts := []Term{Gt(ref, fx.entry.wm), Eq(ref, Int(0))} // nothing is ever written through nil (elems of a nil slice: no elements)
+	// fresh object, or an interior (embedded struct / array) location of a fresh object: subref(p, k) <= -(1024*(wm0+1)) iff |p| > wm0;
+	// nothing is ever written through nil (elems of a nil slice: no elements)
+	alts := []Term{Gt(ref, fx.entry.wm), Eq(ref, Int(0)), Term{fmt.Sprintf("(<= %s (- (* 1024 (+ %s 1))))", ref.S, fx.entry.wm.S), SBool}}
 	if fx.allowedWhole[key] {
 		return True
 	}
